@@ -41,7 +41,7 @@ def main():
         })
     m = {
         'version': 1,
-        'setup_cmd': 'python3 -B -m vf.build san',
+        'setup_cmd': 'python3 -B -m vf.build san && python3 -B -m vf.build val',
         'hooks': {
             'guard': 'ASL_VERIF',
             'enable': 'out-of-tree cmake/ninja build of /repo into /verif/.build/san with -DCMAKE_C_FLAGS="... -DASL_VERIF -fsanitize=address,<ubsan subset>"; hooks are inert unless ASL_VERIF_TRACE / ASL_VERIF_MAX_PASSES / ASL_VERIF_EXTRA_PASSES / ASL_VERIF_MAX_LINES is set in the environment',
